@@ -6,7 +6,7 @@ dst = f'/verif/seeded/{sid}'
 os.makedirs(dst, exist_ok=True)
 shutil.copy(os.path.join(src, 'patch.diff'), dst)
 demo = open(os.path.join(src, 'demo.py')).read()
-demo = re.sub(r'^(\s*)assert srctools\.__file__.*$', r'\1pass  # (path assertion of the seeding sandbox removed)', demo, flags=re.M)
+demo = re.sub(r'^(\s*)assert .*srctools\.__file__.*$', r'\1pass  # (path assertion of the seeding sandbox removed)', demo, flags=re.M)
 open(os.path.join(dst, 'demo.py'), 'w').write(demo)
 if os.path.exists(os.path.join(src, 'notes.md')):
     shutil.copy(os.path.join(src, 'notes.md'), dst)
